@@ -325,6 +325,11 @@ pub struct Snapshot {
     /// outbound_tcp_sockets as scraped (no TCP tunnel exists in this scenario)
     pub tcp_gauge: Option<f64>,
     pub scrape_error: Option<String>,
+    /// inbound_traffic_bytes / outbound_traffic_bytes summed over their labels, as scraped
+    pub traffic: Option<(f64, f64)>,
+    /// payload bytes of the datagrams that had left for their destinations / that the client
+    /// had received, when the scrape was made
+    pub moved: (u64, u64),
 }
 
 #[derive(Debug, Default, Clone)]
@@ -618,6 +623,12 @@ async fn run(plan: UPlan, flows_mode: bool) -> Obs {
                     .filter(|s| world::udp_is_open(*s))
                     .collect();
                 let mut tcp_gauge = None;
+                let mut traffic = None;
+                let moved = {
+                    let up: u64 = world::with(|w| w.udp_sent.iter().map(|d| d.payload.len() as u64).sum());
+                    let down: u64 = parse_replies(&obs.lock().unwrap().client_rx).map(|(r, _)| r.iter().map(|x| x.payload.len() as u64).sum()).unwrap_or(0);
+                    (up, down)
+                };
                 let (gauge, err) = if flows_mode {
                     let (status, text, e) = super::metrics::http_get("/metrics").await;
                     let g = text
@@ -630,6 +641,13 @@ async fn run(plan: UPlan, flows_mode: bool) -> Obs {
                         .find(|l| l.starts_with("outbound_tcp_sockets "))
                         .and_then(|l| l.rsplit(' ').next())
                         .and_then(|v| v.parse::<f64>().ok());
+                    let sum = |name: &str| -> f64 {
+                        text.lines()
+                            .filter(|l| l.starts_with(name) && !l.starts_with('#'))
+                            .filter_map(|l| l.rsplit(' ').next().and_then(|v| v.parse::<f64>().ok()))
+                            .sum()
+                    };
+                    traffic = Some((sum("inbound_traffic_bytes"), sum("outbound_traffic_bytes")));
                     (g, if status == Some(200) { None } else { Some(format!("{:?} {:?}", status, e)) })
                 } else {
                     (None, None)
@@ -645,6 +663,8 @@ async fn run(plan: UPlan, flows_mode: bool) -> Obs {
                     gauge,
                     tcp_gauge,
                     scrape_error: err,
+                    traffic,
+                    moved,
                 });
             }
         }
@@ -967,6 +987,23 @@ fn judge(plan: &UPlan, o: &Obs, flows_mode: bool, out: &mut Outcome) {
                     "C16",
                     format!("metrics:udp:{}:outbound_udp_sockets-differs", proto),
                     format!("at op {}: outbound_udp_sockets = {}, open sockets = {}", snap.op, g, snap.open_socks.len()),
+                );
+            }
+        }
+        if let Some((inb, outb)) = snap.traffic {
+            // every datagram relayed is counted once, by its payload, in its direction
+            if inb != snap.moved.0 as f64 {
+                out.violate(
+                    "C16",
+                    format!("metrics:udp:{}:inbound_traffic_bytes-differs", proto),
+                    format!("at op {}: inbound_traffic_bytes = {}, payload bytes that left for their destinations = {}", snap.op, inb, snap.moved.0),
+                );
+            }
+            if outb != snap.moved.1 as f64 {
+                out.violate(
+                    "C16",
+                    format!("metrics:udp:{}:outbound_traffic_bytes-differs", proto),
+                    format!("at op {}: outbound_traffic_bytes = {}, payload bytes the client received = {}", snap.op, outb, snap.moved.1),
                 );
             }
         }
